@@ -236,7 +236,7 @@ def site_what(world, bv, st):
     return s[:300]
 
 
-ADAPTERS = ("into_owned", "to_owned", "as_ref", "as_deref", "deref", "borrow", "clone", "into", "cloned")
+ADAPTERS = ("into_owned", "to_owned", "as_ref", "as_deref", "deref", "borrow", "clone", "into", "cloned", "as_slice", "as_mut_slice", "to_vec")
 
 
 def _strip_adapters(s):
